@@ -133,6 +133,20 @@ func BoundaryProduct(target string, k, maxN int, codecs []sut.Codec, gzipMaxN in
 	}}
 }
 
+// WithOptStyle runs a family with the writer options passed in another style
+// (sut.OptStyle: 1 = codec before page size, 2 = both options given twice,
+// other values first - the later option decides).
+func WithOptStyle(style int, f Family) Family {
+	return Family{Name: fmt.Sprintf("%s-opt%d", f.Name, style), Gen: func(c *fw.Ctx, emit Emit) {
+		old := sut.OptStyle
+		sut.OptStyle = style
+		defer func() { sut.OptStyle = old }()
+		f.Gen(c, func(tag string, t *sut.Target, recs []refpq.Val, batches []int, page int, codec sut.Codec) {
+			emit(fmt.Sprintf("os%d|%s", style, tag), t, recs, batches, page, codec)
+		})
+	}}
+}
+
 // ---------------------------------------------------------------- family B
 
 // OptionalBoolPacking is family B: one *bool column, alphabet {nil,t,f}.
@@ -170,6 +184,80 @@ func OptionalBoolPacking(maxN int) Family {
 						}
 					}
 				}
+			}
+		}
+	}}
+}
+
+// RequiredBoolPacking: one required bool column (values bit-packed eight to a
+// byte, no levels).  Every sequence over {t,f} up to length exhaustN; beyond
+// that, up to maxN, the constant and alternating sequences and every
+// sequence with a single odd value, with page sizes around 8 and 16 and the
+// batch split at 8.
+func RequiredBoolPacking(exhaustN, maxN int) Family {
+	return Family{Name: "B-rbool", Gen: func(c *fw.Ctx, emit Emit) {
+		t := sut.Get("rbool")
+		mk := func(bits []bool) []refpq.Val {
+			recs := make([]refpq.Val, len(bits))
+			for i, b := range bits {
+				recs[i] = refpq.Val{Group: []refpq.Val{{Leaf: b}, {Leaf: int32(i + 1)}}}
+			}
+			return recs
+		}
+		run := func(tag string, bits []bool, pages []int) {
+			n := len(bits)
+			recs := mk(bits)
+			for _, page := range pages {
+				if page > n+1 {
+					continue
+				}
+				for _, split := range []int{0, 8} {
+					batches := []int{n}
+					if split > 0 {
+						if split >= n {
+							continue
+						}
+						batches = []int{split, n - split}
+					}
+					for _, cd := range codecs2 {
+						emit(fmt.Sprintf("%s|p%d|b%d|z%d", tag, page, split, cd), t, recs, batches, page, cd)
+					}
+				}
+			}
+		}
+		for n := 1; n <= exhaustN; n++ {
+			var pages []int
+			for p := 1; p <= n+1; p++ {
+				pages = append(pages, p)
+			}
+			for x := 0; x < 1<<uint(n); x++ {
+				bits := make([]bool, n)
+				for i := range bits {
+					bits[i] = x>>uint(i)&1 == 1
+				}
+				run(fmt.Sprintf("n%d|x%d", n, x), bits, pages)
+			}
+		}
+		for n := exhaustN + 1; n <= maxN; n++ {
+			pages := []int{1, 7, 8, 9, 15, 16, 17, n, 0}
+			var seqs [][]bool
+			for _, k := range []int{0, 1, 2, 3} { // all f, all t, tftf, ftft
+				bits := make([]bool, n)
+				for i := range bits {
+					bits[i] = k == 1 || (k == 2 && i%2 == 0) || (k == 3 && i%2 == 1)
+				}
+				seqs = append(seqs, bits)
+			}
+			for i := 0; i < n; i++ {
+				a, b := make([]bool, n), make([]bool, n)
+				a[i] = true
+				for j := range b {
+					b[j] = j != i
+				}
+				seqs = append(seqs, a, b)
+			}
+			for si, bits := range seqs {
+				run(fmt.Sprintf("n%d|q%d", n, si), bits, pages)
 			}
 		}
 	}}
@@ -602,9 +690,10 @@ func ForC01(thorough bool) []Family {
 			BoundaryProduct("mini", 3, 3, []sut.Codec{sut.Gzip}, 3),
 			BoundaryProduct("flat3", 3, 4, codecs2, 0),
 			OptionalBoolPacking(7),
+			RequiredBoolPacking(8, 25),
 			ValueSweep("flat24", false),
 			ValueSweep("person", false),
-			LongRuns("mini", []int{8, 9, 504, 505, 1000, 1001}, true),
+			LongRuns("mini", []int{8, 9, 504, 505, 1000, 1001, 8191, 8192, 8193}, true),
 			LongRuns("obool", []int{7, 8, 9, 18, 27, 63, 64, 65, 504, 505, 1000, 1001}, false),
 			Extremes("mini", false),
 			Extremes("person", false),
@@ -619,6 +708,15 @@ func ForC01(thorough bool) []Family {
 			StructureExhaustive("reqdeep", 3, 2, true, 0),
 			StructureExhaustive("samename", 3, 2, true, 0),
 			StructureExhaustive("nest3", 4, 2, true, 80),
+			StructureExhaustive("oddnames", 3, 2, true, 100),
+			StructureExhaustive("wide70", 2, 2, true, 80),
+			StructureExhaustive("deep5", 5, 2, true, 0),
+			StructureExhaustive("samedeep", 4, 2, true, 0),
+			BoundaryProduct("one", 4, 4, codecs2, 0),
+			WithOptStyle(1, BoundaryProduct("mini", 3, 3, codecs3, 3)),
+			WithOptStyle(2, BoundaryProduct("mini", 3, 3, codecs3, 3)),
+			BoundaryProduct("oneopt", 3, 3, codecs2, 0),
+			BoundaryProduct("onerep", 3, 3, codecs2, 0),
 			NestedLists("document", []int{0, 1, 2, 3}),
 			NestedLists("repetition", []int{0, 1, 2, 3}),
 			NestedLists("person", []int{0, 1, 2, 3}),
@@ -626,12 +724,13 @@ func ForC01(thorough bool) []Family {
 			NestedLists("readme", []int{0, 1, 2, 3}),
 		}
 	}
-	long := []int{7, 8, 9, 63, 64, 65, 503, 504, 505, 511, 512, 513, 1000, 1024, 4097}
+	long := []int{7, 8, 9, 63, 64, 65, 503, 504, 505, 511, 512, 513, 1000, 1024, 4097, 8191, 8192, 8193, 65537}
 	return []Family{
 		BoundaryProduct("mini", 6, 6, codecs2, 0),
 		BoundaryProduct("mini", 4, 3, []sut.Codec{sut.Gzip}, 3),
 		BoundaryProduct("flat3", 4, 5, codecs2, 0),
 		OptionalBoolPacking(9),
+		RequiredBoolPacking(11, 40),
 		ValueSweep("flat24", true),
 		ValueSweep("person", true),
 		LongRuns("mini", long, true),
@@ -652,6 +751,16 @@ func ForC01(thorough bool) []Family {
 		StructureExhaustive("reqdeep", 4, 2, true, 0),
 		StructureExhaustive("samename", 4, 2, true, 0),
 		StructureExhaustive("nest3", 6, 2, true, 300),
+		StructureExhaustive("oddnames", 4, 2, true, 300),
+		StructureExhaustive("wide70", 3, 2, true, 300),
+		StructureExhaustive("deep5", 7, 2, true, 0),
+		StructureExhaustive("samedeep", 6, 2, true, 0),
+		BoundaryProduct("one", 6, 6, codecs2, 0),
+		WithOptStyle(1, BoundaryProduct("mini", 4, 4, codecs3, 3)),
+		WithOptStyle(2, BoundaryProduct("mini", 4, 4, codecs3, 3)),
+		WithOptStyle(2, BoundaryProduct("flat3", 3, 3, codecs3, 3)),
+		BoundaryProduct("oneopt", 5, 5, codecs2, 0),
+		BoundaryProduct("onerep", 4, 4, codecs2, 0),
 		NestedLists("document", []int{0, 1, 2, 3, 4, 9}),
 		NestedLists("repetition", []int{0, 1, 2, 3, 4, 9}),
 		NestedLists("person", []int{0, 1, 2, 3, 4, 9}),
@@ -692,10 +801,14 @@ func ForC03(thorough bool) []Family {
 			StructureExhaustive("reqdeep", 3, 2, true, 0),
 			StructureExhaustive("samename", 3, 2, true, 0),
 			StructureExhaustive("nest3", 5, 2, true, 200),
+			StructureExhaustive("oddnames", 3, 2, true, 150),
+			StructureExhaustive("wide70", 2, 2, true, 120),
+			StructureExhaustive("deep5", 5, 2, true, 0),
+			StructureExhaustive("samedeep", 4, 2, true, 0),
 			NestedLists("document", []int{0, 1, 2, 3}),
 			NestedLists("repetition", []int{0, 1, 2, 3}),
 			NestedLists("nest3", []int{0, 1, 2, 3}),
-			LongRuns("mini", []int{8, 9, 504, 505, 1000, 1001}, false),
+			LongRuns("mini", []int{8, 9, 504, 505, 1000, 1001, 8191, 8192, 8193}, false),
 			LongRuns("flat3", []int{504, 505, 1001}, false),
 			LongRuns("document", []int{8, 9, 505}, false),
 		}
@@ -710,11 +823,14 @@ func ForC03(thorough bool) []Family {
 		StructureExhaustive("reqdeep", 4, 2, true, 0),
 		StructureExhaustive("samename", 4, 2, true, 0),
 		StructureExhaustive("nest3", 7, 2, true, 500),
+		StructureExhaustive("oddnames", 4, 2, true, 300),
+		StructureExhaustive("wide70", 3, 2, true, 300),
+		StructureExhaustive("deep5", 7, 2, true, 0),
 		NestedLists("document", []int{0, 1, 2, 3, 4, 9}),
 		NestedLists("repetition", []int{0, 1, 2, 3, 4, 9}),
 		NestedLists("nest3", []int{0, 1, 2, 3, 4, 9}),
-		LongRuns("mini", []int{7, 8, 9, 63, 64, 65, 503, 504, 505, 511, 512, 513, 1000, 1024, 4097}, false),
-		LongRuns("flat3", []int{504, 505, 1001, 4097}, false),
+		LongRuns("mini", []int{7, 8, 9, 63, 64, 65, 503, 504, 505, 511, 512, 513, 1000, 1024, 4097, 8191, 8192, 8193, 65537}, false),
+		LongRuns("flat3", []int{504, 505, 1001, 4097, 8192, 8193}, false),
 		LongRuns("document", []int{8, 9, 504, 505, 1001}, false),
 		LongRuns("repetition", []int{8, 9, 505}, false),
 	}
@@ -795,6 +911,35 @@ func HeaderVaryWorkloads(codecs []sut.Codec) []Workload {
 	return out
 }
 
+// BigPageWorkloads are single-row-group files with one page of about 2.6 MB
+// (40 strings of 64-66 KiB; above the 1 MiB and 2 MiB marks at which a reader
+// might switch to reading in steps): in flat3 the big page is in the middle
+// column (another chunk follows it), in tailstr it is the last page of the
+// file.
+func BigPageWorkloads(codecs []sut.Codec) []Workload {
+	const n = 40
+	big := func(i int) string {
+		return strings.Repeat(string(rune('a'+i%26)), 65536+i*53) + fmt.Sprint(i)
+	}
+	mid := make([]refpq.Val, n)
+	tail := make([]refpq.Val, n)
+	for i := 0; i < n; i++ {
+		cl := refpq.Val{}
+		if i%4 == 1 {
+			cl = refpq.Val{List: []refpq.Val{{Leaf: int32(i)}, {Leaf: int32(-i)}}}
+		}
+		mid[i] = refpq.Val{Group: []refpq.Val{{Leaf: int64(i)*1000003 + 7}, {Leaf: big(i)}, cl}}
+		tail[i] = refpq.Val{Group: []refpq.Val{{Leaf: int32(i + 1)}, {Leaf: big(i)}}}
+	}
+	var out []Workload
+	for _, cd := range codecs {
+		out = append(out,
+			Workload{fmt.Sprintf("flat3/%s/bigpage", cd), "flat3", mid, []int{n}, n, cd},
+			Workload{fmt.Sprintf("tailstr/%s/bigpage", cd), "tailstr", tail, []int{n}, n, cd})
+	}
+	return out
+}
+
 // mapStrings rewrites every string leaf of a record.
 func mapStrings(root *refpq.Node, v refpq.Val, fn func(string) string) refpq.Val {
 	var inner func(n *refpq.Node, v refpq.Val) refpq.Val
@@ -843,6 +988,7 @@ func ForC16(thorough bool) []Family {
 			LongRuns("mini", []int{8, 9, 504, 505}, false),
 			StructureExhaustive("person", 2, 2, true, 30),
 			StructureExhaustive("document", 3, 2, true, 40),
+			StructureExhaustive("samedeep", 2, 2, true, 0),
 			Extremes("mini", false),
 			Extremes("person", false),
 			EmptyFiles("mini", "person", "document", "flat3"),
